@@ -48,7 +48,7 @@ EXAMPLES = {"quick": 150, "thorough": 3000}
 MIN_NONTRIVIAL = {"quick": 300, "thorough": 4000}
 
 FMTS = "BHIQbhiq"
-TEMP_KINDS = {"hstore", "dset", "dget", "ktime", "prandom", "deep", "abs",
+TEMP_KINDS = {"hstore", "dset", "dget", "dboth", "ktime", "prandom", "deep", "abs",
               "bitcmp"}
 
 
@@ -117,8 +117,8 @@ def case_strategy(draw):
         k = draw(st.sampled_from(["const", "const", "copy", "copy", "expr",
                                   "deep", "abs", "ktime", "prandom", "bitcmp",
                                   "hstore", "dset", "dget", "bitconst"]
-                                 + (["dset", "dget", "dget"] if dspec
-                                    else [])))
+                                 + (["dset", "dget", "dget", "dboth"]
+                                    if dspec else [])))
         tgt = draw(st.sampled_from(ints))
         if k == "const":
             stmts.append(["const", tgt, draw(st.integers(-5, 200))])
@@ -156,13 +156,30 @@ def case_strategy(draw):
         elif k == "dget" and dspec:
             stmts.append(["dget",
                           [draw(st.integers(0, 3)) for _ in dspec["key"]],
-                          tgt, draw(st.integers(0, len(dspec["value"]) - 1))])
+                          tgt, draw(st.integers(0, len(dspec["value"]) - 1)),
+                          draw(st.integers(0, 1))])
+        elif k == "dboth" and dspec:
+            # both Dicts (declared with the same Structure classes) are
+            # staged before either is updated
+            stmts.append(["dboth",
+                          [draw(st.integers(0, 3)) for _ in dspec["key"]],
+                          [draw(st.sampled_from(ints))
+                           for _ in dspec["value"]],
+                          [draw(st.integers(0, 3)) for _ in dspec["key"]],
+                          [draw(st.integers(0, 100))
+                           for _ in dspec["value"]]])
+            # ... and both entries are looked up again
+            for tbl, key in ((0, stmts[-1][1]), (1, stmts[-1][3])):
+                stmts.append(["dget", list(key), draw(st.sampled_from(ints)),
+                              draw(st.integers(0, len(dspec["value"]) - 1)),
+                              tbl])
     return {"subs": subs, "decls": decls, "dict": dspec, "stmts": stmts,
             "init": [draw(st.integers(0, 200)) for _ in inst],
             # how many of the main program's first declarations come from a
             # base class; the same for the first one of each subprogram class
             "split": draw(st.sampled_from([0, 0, 1, 2, 3])),
-            "split_sub": draw(st.booleans())}
+            "split_sub": draw(st.booleans()),
+            "prior": draw(st.booleans())}
 
 
 def strategy(tier):
@@ -245,6 +262,7 @@ def run_case(case):
 
     store = {}
     dmodel = {}
+    dmodel2 = {}
     order = []
 
     def fmt_of(v):
@@ -359,15 +377,34 @@ def run_case(case):
                     vals.append(dsl.decode_value(a, dspec["value"][i]))
                 e.table.update()
                 dmodel[tuple(s[1])] = vals
-            elif k == "dget":
+            elif k == "dboth":
                 for i, c in enumerate(s[1]):
                     setattr(e.table.key, f"k{i}", c)
-                with e.table.lookup() as (value, Else):
+                vals = []
+                for i, v in enumerate(s[2]):
+                    a = store[tuple(v)]
+                    setattr(e.table.value, f"v{i}", ref(e, v))
+                    vals.append(dsl.decode_value(a, dspec["value"][i]))
+                for i, c in enumerate(s[3]):
+                    setattr(e.table2.key, f"k{i}", c)
+                for i, c in enumerate(s[4]):
+                    setattr(e.table2.value, f"v{i}", c)
+                e.table2.update()
+                e.table.update()
+                dmodel[tuple(s[1])] = vals
+                dmodel2[tuple(s[3])] = list(s[4])
+            elif k == "dget":
+                second = len(s) > 4 and s[4] == 1
+                tbl, model = (e.table2, dmodel2) if second \
+                    else (e.table, dmodel)
+                for i, c in enumerate(s[1]):
+                    setattr(tbl.key, f"k{i}", c)
+                with tbl.lookup() as (value, Else):
                     put(e, s[2], getattr(value, f"v{s[3]}"))
                 with Else:
                     put(e, s[2], 77)
-                if tuple(s[1]) in dmodel:
-                    write(s[2], dmodel[tuple(s[1])][s[3]])
+                if tuple(s[1]) in model:
+                    write(s[2], model[tuple(s[1])][s[3]])
                 else:
                     write(s[2], 77)
         # ---- dump through the DSL
@@ -387,6 +424,7 @@ def run_case(case):
                              {f"v{i}": Member(f)
                               for i, f in enumerate(dspec["value"])})
                 ns["table"] = Dict(Key, Value, size=8)
+                ns["table2"] = Dict(Key, Value, size=8)
             # the first declarations may sit in a base class, the rest in
             # the class derived from it
             def derive(name, root, members, names, k):
@@ -406,6 +444,24 @@ def run_case(case):
                                   if d["owner"] == ci],
                                  1 if case.get("split_sub") else 0)
                       for ci in subns}
+            if case.get("prior") and subs:
+                # the subprogram classes were used before, in another main
+                # program with a small stack frame
+                def small_program(p):
+                    for sub in p.subprograms:
+                        for d in decls:
+                            if d["owner"] in subns and d["kind"] == "local" \
+                                    and isinstance(d["fmt"], str) \
+                                    and d["name"] in type(sub).__dict__ \
+                                    | {k: 1 for c in type(sub).__mro__
+                                       for k in c.__dict__}:
+                                setattr(sub, d["name"], 1)
+                    p.exit(XDPExitCode.TX)
+                Small = type("Small", (XDP,), {
+                    "license": "GPL", "minimumPacketSize": 64,
+                    "tiny": LocalVar("B"), "program": small_program})
+                Small(subprograms=[subcls[ci]() for ci in subs]).assemble()
+                classes.append("subprograms-used-before")
             for ci in subs:
                 subobjs.append(subcls[ci]())
             e = cls(subprograms=subobjs)
@@ -437,6 +493,7 @@ def run_case(case):
         if sublocals:
             facts.append("subprogram-locals")
         facts += sorted(dynfacts)
+        tainted = sublocal_influence(case, inst, dmap)
         if obs.fault:
             return dict(ok=False, nontrivial=True, classes=classes,
                         facts=facts, bucket=("fault", facts),
@@ -461,6 +518,10 @@ def run_case(case):
             if got != want:
                 wrong.append((v, got, want))
         if wrong:
+            if any(tuple(w[0]) not in tainted for w in wrong):
+                # a variable that no subprogram local ever flowed into:
+                # not the known aliasing of subprogram locals
+                facts = [f for f in facts if f != "subprogram-locals"]
             return dict(ok=False, nontrivial=True, classes=classes,
                         facts=facts,
                         bucket=(facts, sorted({dmap[w[0][1]]["kind"] + (
@@ -477,6 +538,46 @@ def run_case(case):
         return dict(ok=True, nontrivial=len(storage) >= 2 and temp, key=key,
                     classes=classes,
                     summary={"program": render(case)[:600]})
+
+
+def sublocal_influence(case, inst, dmap):
+    """the variables a subprogram local may have flowed into (the known
+    finding C04-subprogram-locals makes subprogram locals alias each other
+    and stack temporaries: their values, and what is computed from them, are
+    unreliable - nothing else is)"""
+    tainted = {tuple(v) for v in inst
+               if v[0] != "main" and dmap[v[1]]["kind"] == "local"}
+    fixed = set(tainted)
+    entries = {}
+
+    def flow(tgt, sources):
+        tgt = tuple(tgt)
+        if tgt in fixed:
+            return
+        if any(tuple(x) in tainted for x in sources):
+            tainted.add(tgt)
+        else:
+            tainted.discard(tgt)
+    for s in case["stmts"]:
+        k = s[0]
+        if k in ("const", "ktime", "prandom", "bitconst"):
+            flow(s[1], [])
+        elif k in ("copy", "expr", "abs", "bitcmp", "hstore"):
+            flow(s[1], [s[2]])
+        elif k == "deep":
+            flow(s[1], [s[2], s[3], s[4]])
+        elif k == "dset":
+            entries[0, tuple(s[1])] = any(tuple(v) in tainted for v in s[2])
+        elif k == "dboth":
+            entries[0, tuple(s[1])] = any(tuple(v) in tainted for v in s[2])
+            entries[1, tuple(s[3])] = False
+        elif k == "dget":
+            tbl = s[4] if len(s) > 4 else 0
+            if entries.get((tbl, tuple(s[1]))):
+                tainted.add(tuple(s[2]))
+            elif tuple(s[2]) not in fixed:
+                tainted.discard(tuple(s[2]))
+    return tainted
 
 
 def render(case):
